@@ -1,4 +1,5 @@
 import Driver.Manager
+import Driver.Stream
 /-!
   `tvdrv`: one line in, one line out. The first token selects the model.
   Unknown or malformed lines answer `bad-op` (never a default).
@@ -7,6 +8,7 @@ open TinkVerif
 
 structure DState where
   mgr : Driver.Mgr.St := {}
+  strm : Driver.Strm.St := {}
 
 def dispatch (st : DState) (line : String) : DState × String :=
   let toks := (line.trimAscii.toString.splitOn " ").filter (· ≠ "")
@@ -14,6 +16,10 @@ def dispatch (st : DState) (line : String) : DState × String :=
   | "M" :: rest =>
     match Driver.Mgr.handle st.mgr rest with
     | some (m, out) => ({ st with mgr := m }, out)
+    | none => (st, "bad-op")
+  | "S" :: rest =>
+    match Driver.Strm.handle st.strm rest with
+    | some (m, out) => ({ st with strm := m }, out)
     | none => (st, "bad-op")
   | _ => (st, "bad-op")
 
